@@ -9,7 +9,7 @@
 (* so that every event is judged); the driver requires that the number of  *)
 (* distinct states equals 1 + K + N, i.e. that every event was evaluated.  *)
 (***************************************************************************)
-EXTENDS EditCheck, SerdeModel, DepthDef, Containers, WalkDef, BuildDef, EncodeImpl, ArrayImpl, Json, IOUtils
+EXTENDS KeyImpl, SerdeModel, DepthDef, Containers, WalkDef, BuildDef, EncodeImpl, ArrayImpl, Json, IOUtils
 
 Ev == ndJsonDeserialize(IOEnv.TRACE)
 N == Len(Ev)
@@ -112,7 +112,12 @@ CheckRoundtrip(i) ==
                     /\ IF AllKept(Comments(e.text, p), Comments(r.out, q)) THEN TRUE ELSE Report(i, "rt-comment", [fe |-> r.fe]) /\ FALSE
                     /\ IF r.out2 = r.out THEN TRUE ELSE Report(i, "rt-fixpoint", [fe |-> r.fe]) /\ FALSE
                     /\ IF Interleaved(p.stmts) \/ r.out = n THEN TRUE
+                       \* known finding F08: a table's key spelled more than once is printed like the key that the
+                       \* table keeps (KeyImpl predicts the text of every key region); repeated dotted prefixes inside
+                       \* an inline table are recognised only as "same up to key spelling"
                        ELSE IF HasRepeatedSegment(p.stmts) /\ SameUpToKeySpelling(n, ParseDocument(n), r.out, q)
+                               /\ ((\E x \in 1..Len(p.stmts) : p.stmts[x].kind = "kv" /\ InlineRepV(p.stmts[x].val))
+                                   \/ RegionsAsPredicted(n, ParseDocument(n), r.out, q))
                             THEN Report(i, "rt-respelled", [fe |-> r.fe, expected |-> n]) /\ FALSE
                             ELSE Report(i, "rt-exact", [fe |-> r.fe, expected |-> n]) /\ FALSE
 
